@@ -118,8 +118,22 @@ def run(ctx, out):
             items: list[str] = pane.field(default_factory=list)
         for s in ('héllo wörld', '世界', 'line1\nline2', ' leading and trailing ', 'emoji \U0001F600', 'quote " and \' and : #', '', '- dash', 'null', '1e3', 'yes'):
             cases.append((('class', {}), Txt, Txt(s, [s, 'x'])))
+        # order-sensitive mappings: the keys are written in the value's order unless the caller asks for sorting
+        import collections
+        import typing as _t
+        od = collections.OrderedDict([('zeta', 1), ('alpha', 2), ('mid', 3)])
+
+        class Ord(pane.PaneBase):
+            zeta: int = 1
+            alpha: _t.OrderedDict[str, int] = pane.field(default_factory=collections.OrderedDict)
+            mid: str = 'm'
+        cases.append((('ordered',), _t.OrderedDict[str, int], od))
+        cases.append((('ordered',), _t.List[_t.OrderedDict[str, int]], [od, collections.OrderedDict([('b', 1), ('a', 2)])]))
+        cases.append((('ordered',), Ord, Ord(alpha=collections.OrderedDict([('y', 1), ('x', 2)]))))
         for term, T, x in cases:
             for fmt, optlist in (('json', json_opts), ('yaml', yaml_opts)):
+                if term == ('ordered',):
+                    optlist = [o for o in optlist if not o.get('sort_keys')]
                 with warnings.catch_warnings():
                     warnings.simplefilter('ignore')
                     try:
@@ -129,7 +143,7 @@ def run(ctx, out):
                 if not representable(d, fmt):
                     continue
                 opts = rng.choice(optlist) if not thorough else None
-                for o in ([opts] if opts is not None else optlist):
+                for o in ([opts] if opts is not None and term != ('ordered',) else optlist):
                     for kind in ('str-path', 'Path', 'open-stream', 'StringIO'):
                         n += 1
                         label = f'{fmt}/{kind}/{sorted(o.items())}'
@@ -176,6 +190,9 @@ def run(ctx, out):
                                     fh.close()
                                 if enc not in ('utf-8', 'utf8', 'UTF-8'):
                                     out.violation(f'C19:not-utf8:{fmt}', f'{label}: {name} was opened with encoding {enc!r}', {'config': label})
+                        if term == ('ordered',) and not (y == x):
+                            out.violation(f'C19:roundtrip-differs:key-order:{fmt}', f'{label}: read back {y!r}, wrote {x!r}: the order of an order-sensitive mapping changed '
+                                          f'although sorting was not asked for', {'config': label, 'data': repr(d)})
                         if canon(y) != canon(x) and 'FNan' not in canon(x):
                             out.violation(f'C19:roundtrip-differs:{fmt}', f'{label}: read back {y!r}, wrote {x!r} (data {d!r})', {'config': label, 'data': repr(d)})
                         out.case((fmt, kind, repr(sorted(o.items())), canon(x)), nontrivial=term[0] not in ('scalar', 'none'))
